@@ -7,6 +7,7 @@ var verifHarnesses = map[string]any{
 	"Verif_C15_Expose":          Verif_C15_Expose,
 	"Verif_T2_Smoke":            Verif_T2_Smoke,
 	"Verif_C02_Faults":          Verif_C02_Faults,
+	"Verif_C02_IOFaults":        Verif_C02_IOFaults,
 	"Verif_C07_Effects":         Verif_C07_Effects,
 	"Verif_C05_AloneVsTogether": Verif_C05_AloneVsTogether,
 	"Verif_C06_Dispatch":        Verif_C06_Dispatch,
